@@ -548,6 +548,10 @@ fn cmd_check(args: &Args) -> i32 {
         } else {
             run_one(sim, &prop, fail.index, fail.seed, Some(&fail.decisions), true)
         };
+        if final_res.violation.is_none() {
+            eprintln!("harness error: the violation of {} run {} (seed {}) does not recur when its own decisions are re-executed in this process (was /repo changed while the check ran?)", fail.sim.name(), fail.index, fail.seed);
+            return 2;
+        }
         println!("minimised {} -> {} decisions in {} executions", from_len, final_res.decisions.len(), st.executions);
         let _ = std::fs::create_dir_all(&replay_dir);
         let path = format!("{replay_dir}/{prop}-{}-{}.json", BUILD_PROFILE, fail.seed);
